@@ -27,6 +27,19 @@ def pathlib_mask():
     return v
 
 
+# flags each module documents (own tables: a change of a module's FLAG_MASK must stay visible); every other bit is foreign to it and ignored
+FNMATCH_FLAG_NAMES = ['CASE', 'IGNORECASE', 'RAWCHARS', 'NEGATE', 'MINUSNEGATE', 'DOTMATCH', 'EXTMATCH', 'BRACE', 'SPLIT', 'NEGATEALL', 'FORCEWIN', 'FORCEUNIX']
+WCMATCH_PARSER_FLAG_NAMES = ['CASE', 'IGNORECASE', 'RAWCHARS', 'EXTMATCH', 'GLOBSTAR', 'BRACE', 'MINUSNEGATE', 'MATCHBASE']
+
+
+def foreign_bits(names, extra=0, width=40):
+    """Single bits (below 2**width) outside the documented set `names` (+ `extra`)."""
+    own = extra
+    for n in names:
+        own |= FLAGN[ALIASES.get(n, n)]
+    return [1 << i for i in range(width) if not own & (1 << i)]
+
+
 def flags_of(names):
     v = 0
     for n in names:
